@@ -7,6 +7,7 @@ import ChythonModel.Proofs.C10Half
 import ChythonModel.Proofs.C10HalfTrunc
 import ChythonModel.Proofs.C10PerceiveMain
 import ChythonModel.Proofs.C10Terminals
+import ChythonModel.Proofs.C10Ideal
 /-!
 # C10 — binary pack format: lossless round trip, stable published layout
 
@@ -416,6 +417,22 @@ theorem allene_terminals_are_chain_ends (atoms : List PAtom) (g : GraphOK atoms)
       path.getLast? = some tm ∧ path[path.length / 2]? = some c :=
   allenes_entry g hp hl
 
+/-- **the perception never fails on a well-formed graph**: no `KeyError` from an emptied set (the walk never meets an already
+    consumed terminal: the ideal walk from the far end of a chain is the same chain reversed), no `pop` from a set with several
+    elements (an atom with at most two neighbours has at most one way on), and the walk stops within `len(atoms) + 1` steps
+    (it visits no atom twice). All perception theorems therefore speak about every well-formed molecule. -/
+theorem perception_total (atoms : List PAtom) (g : GraphOK atoms) : ∃ p, perceive atoms = .ok p :=
+  perceive_ok g
+
+/-- `stereo_roundtrip_partial` with the perception hypothesis discharged: ∀ molecule within the format limits … -/
+theorem stereo_roundtrip_total_partial (atoms : List PAtom) (g : GraphOK atoms) :
+    ∃ p, perceive atoms = .ok p ∧
+      (WF ⟨atoms, p.terminals⟩ → MarksOK atoms (p.stereogenic.map (·.1)) → KeysDisjoint (p.stereogenic.map (·.1)) →
+        ∀ rest : List Nat, ∃ bytes, packFull atoms = .ok bytes ∧
+          unpackFull (bytes ++ rest) = .ok ⟨atoms, ctListOf p.terminals (firstSeen [] atoms), bytes.length⟩) := by
+  obtain ⟨p, hp⟩ := perceive_ok g
+  exact ⟨p, hp, fun h hm hd rest => pack_unpack_full_aux atoms p hp h hm hd rest⟩
+
 /-- but-2-ene with a mark, and hexa-2,3,4-triene (three cumulated double bonds) with a mark on the central bond -/
 def exAlkene : List PAtom :=
   [{ num := 1, z := 6, iso := none, stereo := none, x := 0, y := 0, h := some 3, charge := 0, radical := false, nbrs := [⟨2, 1, none⟩] },
@@ -437,6 +454,21 @@ def exTriene : List PAtom :=
      nbrs := [⟨40, 2, none⟩, ⟨60, 1, none⟩, ⟨70, 1, none⟩] },
    { num := 60, z := 6, iso := none, stereo := none, x := 0, y := 0, h := some 3, charge := 0, radical := false, nbrs := [⟨50, 1, none⟩] },
    { num := 70, z := 9, iso := none, stereo := none, x := 0, y := 0, h := some 0, charge := 0, radical := false, nbrs := [⟨50, 1, none⟩] }]
+
+/-- **`TerminalsAreMaximalChainEnds` for every molecule without a hypervalent centre inside a chain** (`NoHyperDouble`: no atom
+    with more than two neighbours carries two double bonds — every hydrocarbon, every ordinary organic molecule; sulfones with two
+    S=O are outside): every reported path is a maximal chain, and `_stereo_cis_trans_terminals[k] = (tn, tm)` gives the two ends of a
+    maximal chain of cumulated double bonds with an odd number of double bonds. The excluded class is exactly where the walk of
+    `cumulenes` stops at an atom that has more than two neighbours and at least two double bonds. -/
+theorem terminals_are_maximal_chain_ends_partial (atoms : List PAtom) (g : GraphOK atoms) (hn : NoHyperDouble atoms) :
+    (∀ paths, cumulenes atoms = .ok paths → ∀ q ∈ paths, MaximalChain can atoms q) ∧
+    (∀ p, perceive atoms = .ok p → ∀ k tn tm, p.terminals.lookup k = some (tn, tm) →
+      ∃ path ∈ p.cumulenes, MaximalChain can atoms path ∧ IsCisTransUnit path ∧ path.head? = some tn ∧
+        path.getLast? = some tm ∧ k ∈ keys4 path) :=
+  ⟨fun _ h => cumulenes_maximal g hn h, fun _ hp _ _ _ hl => terminals_entry_maximal g hn hp hl⟩
+
+/-- `NoHyperDouble` is satisfiable by a molecule with a three-coordinate end atom (the iminium end of `exTriene`) -/
+example : NoHyperDouble exTriene := noHyperDoubleb_sound _ (by decide +kernel)
 
 /-- the hypotheses of `stereo_roundtrip_partial` are satisfiable with marks present -/
 example : ∀ atoms ∈ [exAlkene, exTriene], ∃ p, perceive atoms = .ok p ∧ WF ⟨atoms, p.terminals⟩ ∧
